@@ -296,6 +296,44 @@ func bundleGen(args []string) error {
 					"https://a.test:8443/p?q=1", "https://A.TEST/primary", "http://a.test/"}[r.Intn(6)]))
 			}
 		}
+		// b1: a URL with a variant set over 1..3 axes (complete / one representation missing / one repeated), next to the others
+		if b.Ver == "b1" && i%3 == 0 {
+			axes := [][][]string{{{"Accept-Language", "en", "fr"}}, {{"Accept-Language", "en", "fr"}, {"A", "x", "y", "z"}},
+				{{"Accept-Encoding", "gzip", "br"}, {"Accept-Language", "en", "fr", "ja"}, {"Accept", "text", "image"}}, {{"a", "p", "q"}, {"b", "p", "q"}, {"c", "p", "q"}}}[r.Intn(4)]
+			var vparts []string
+			for _, ax := range axes {
+				vparts = append(vparts, strings.Join(ax, ";"))
+			}
+			variants := strings.Join(vparts, ", ")
+			var keys [][]string
+			var rec func(i int, cur []string)
+			rec = func(i int, cur []string) {
+				if i == len(axes) {
+					keys = append(keys, append([]string{}, cur...))
+					return
+				}
+				for _, v := range axes[i][1:] {
+					rec(i+1, append(cur, v))
+				}
+			}
+			rec(0, nil)
+			r.Shuffle(len(keys), func(a, c int) { keys[a], keys[c] = keys[c], keys[a] })
+			switch r.Intn(4) {
+			case 0: // incomplete
+				keys = keys[1:]
+			case 1: // overlapping
+				keys = append(keys, keys[0])
+			}
+			for ki, k := range keys {
+				b.Exs = append(b.Exs, bex{URL: ints([]byte("https://v.test/variants")), Status: 200, Hdrs: []hent{
+					{N: ints([]byte("Variant-Key")), Vs: [][]int{ints([]byte(strings.Join(k, ";")))}},
+					{N: ints([]byte("Variants")), Vs: [][]int{ints([]byte(variants))}}}, Body: ints([]byte(fmt.Sprintf("representation %d %s", ki, strings.Join(k, "/"))))})
+			}
+		}
+		// a URL whose query is not valid UTF-8 (url.Parse takes it, the index key is a CBOR text string)
+		if i%17 == 5 {
+			b.Exs = append(b.Exs, bex{URL: append(ints([]byte("https://a.test/s?q=caf")), 0xe9), Status: 200, Hdrs: []hent{}, Body: ints([]byte("x"))})
+		}
 		// a large bundle now and then (paths that depend on the NUMBER of exchanges)
 		if i%40 == 7 {
 			for j := 0; j < 300; j++ {
